@@ -230,6 +230,19 @@ impl Monitor for C10 {
             variants.push(("static_dup_plus_supplemental", obs.pre.clone(), sup, true));
             let sup2 = with_supplemental(&set_arrays(&obs.ix, [canon_arrays[2], canon_arrays[2], canon_arrays[2]]), &[canon_arrays[1], canon_arrays[0]]);
             variants.push(("all_via_supplemental", obs.pre.clone(), sup2, true));
+            // (c') the arrays beyond the first one are supplied only as supplemental accounts that are NOT marked
+            //      writable (the caller chooses the flags of remaining accounts): the program may refuse, but it
+            //      must not treat a read-only initialized array as absent and walk over its ticks
+            if canon_arrays[1] != canon_arrays[0] {
+                let mut ro = with_supplemental(&set_arrays(&obs.ix, [canon_arrays[0], canon_arrays[0], canon_arrays[0]]), &[canon_arrays[1], canon_arrays[2]]);
+                let n = ro.metas.len();
+                for m in ro.metas[n - 2..].iter_mut() {
+                    if m.key != canon_arrays[0] {
+                        m.writable = false;
+                    }
+                }
+                variants.push(("supplemental_read_only", obs.pre.clone(), ro, false));
+            }
         }
         // (d) arrays without any initialized tick exist only as addresses
         {
